@@ -192,11 +192,12 @@ PLANS = {
         "must_see": ["deep:ok"],
         "gen": [gen("extreme", "extreme", ["delete_by_index", "array_insert", "get_by_keypath", "delete_by_keypath", "get_by_index"], rp="{0, 1}"),
                 {"name": "extremepath", "module": "GenPath", "constants": {"Family": '"err"', "MaxSteps": "0"}},
+                {"name": "extremetext", "module": "GenSyntax", "constants": {"Family": '"extreme"'}},
                 {"name": "limits", "module": "Limits", "constants": {"W": "6"}, "invariants": ["OutcomeOk"]},
                 {"name": "indexproofs", "tool": "tlapm", "module": "IndexProofs", "tiers": ("thorough",)},
                 {"name": "deep", "module": "GenDeep", "constants": {},
                  "tier_constants": {"quick": {"Depths": "{1000, 10000, 100000}"}, "thorough": {"Depths": "{100, 1000, 3000, 10000, 30000, 100000, 300000}"}}}],
-        "bounds": "index and position arguments at {i32::MIN, MIN+1, -len-1, -len, -1, 0, len-1, len, len+1, MAX-1, MAX} for delete_by_index, array_insert, both key-path functions (at depth 1 and 2, JSONB and text) and JSONPath index forms; 25 routines x {array, object, alternating} nesting x depths on a geometric ladder up to 300000 (quick: 1000/10000/100000), each in a child process with an 8 MiB stack; index-arithmetic laws model-checked on a 6-bit scaled copy and (thorough) proved for every machine width with TLAPS (IndexProofs.tla: 12 obligations, incl. that the saturating position arithmetic of Path.tla agrees with exact integer positions)",
+        "bounds": "index and position arguments at {i32::MIN, MIN+1, -len-1, -len, -1, 0, len-1, len, len+1, MAX-1, MAX} for delete_by_index, array_insert, both key-path functions (at depth 1 and 2, JSONB and text) and JSONPath index forms; 10 integer spellings at and beyond the ends of the i32 range in every numeric position of path and key-path text (index, last +/- n incl. doubled signs, ranges, filter literal); 25 routines x {array, object, alternating} nesting x depths on a geometric ladder up to 300000 (quick: 1000/10000/100000), each in a child process with an 8 MiB stack; index-arithmetic laws model-checked on a 6-bit scaled copy and (thorough) proved for every machine width with TLAPS (IndexProofs.tla: 12 obligations, incl. that the saturating position arithmetic of Path.tla agrees with exact integer positions)",
         "assumptions": ["stack exhaustion is observed with the default 8 MiB thread stack of this harness build (opt-level 1); frame sizes of other builds differ, which is why recorded findings name a ladder rung one step shallower than the first observed crash"],
     },
 }
